@@ -43,7 +43,9 @@ class Opaque:
         self.tag = tag
 
     def __reduce_ex__(self, protocol: int) -> Any:
-        raise TypeError("cannot pickle 'Opaque' object")
+        # what pickling raises for legal values varies: TypeError (locks, generators), ValueError (ctypes pointers),
+        # RecursionError (deeply nested structures)
+        raise [TypeError, ValueError, RecursionError][self.tag % 3]("cannot pickle 'Opaque' object")
 
     def __repr__(self) -> str:
         return f"<Opaque:{self.tag}>"
